@@ -584,7 +584,22 @@ class C06(Monitor):
             if k in w.started and k not in w.exited:
                 state[t] = "running"
             elif k in w.exited:
-                state[t] = w.classify(k)
+                # the harness' own knowledge first: a task whose coroutine ended by cancellation and whose
+                # cancel callback has begun (but not its end callback) counts as cancelled; one whose end
+                # callback has begun counts as ended (or is forgotten after a flush)
+                if w.cb_begun[("ecb", k)]:
+                    st = w.classify(k)
+                    if st not in ("ended", "unknown"):
+                        self.v("task whose end callback has run is not ended/forgotten for cancel()", k, st)
+                        return
+                    state[t] = st
+                elif w.exited[k] == "cancelled" and w.cb_begun[("ccb", k)]:
+                    state[t] = "cancelled"
+                else:
+                    state[t] = w.classify(k)
+                    if state[t] == "running":
+                        self.v("task whose coroutine has finished is still cancellable", k)
+                        return
             elif k not in w.cancel_targets:
                 state[t] = "running"
             elif f"{pool}_Task-{t}" not in pending:
@@ -663,7 +678,16 @@ class C09(Monitor):
                     groups[t] = sorted(pool.get_group_ids(r.group))
                 except X.InvalidGroupName:
                     groups[t] = None
-        return (pool.num_running, pool.num_cancelled, pool.num_ended, pool.is_full, pool.pool_size, groups,
+        # names a rejected request could have registered: the explicit one and the generated patterns
+        names = ["rejname"] + [f"{m}-work-group-{i}" for m in ("apply", "map", "starmap", "doublestarmap") for i in range(4)]
+        names += [f"start-group-{i}" for i in range(5)] + ["apply-plain-group-0", "map-plain-group-0", "apply-flagged_work-group-0"]
+        known = []
+        for n in names:
+            try:
+                known.append((n, tuple(sorted(pool.get_group_ids(n)))))
+            except X.InvalidGroupName:
+                pass
+        return (pool.num_running, pool.num_cancelled, pool.num_ended, pool.is_full, pool.pool_size, groups, tuple(known),
                 len(w.started), len(w.exited), dict(w.pulled), dict(w.calls), len(w.loop._ready), str(pool))
 
     def alternatives(self, p):
@@ -677,6 +701,7 @@ class C09(Monitor):
             avail = ["locked"]
             if not simple:
                 avail.append("plainfunc")
+                avail.append("named")
                 if m != "apply":
                     avail += ["nc0", "ncneg"]
                 if live_names:
@@ -750,7 +775,7 @@ class C09(Monitor):
             return
         if "locked" in sub:
             pool.lock()
-        causes = set(sub)
+        causes = set(sub) - {"named"}
         if pool.is_locked:
             causes.add("locked")
         if closed:
@@ -764,6 +789,8 @@ class C09(Monitor):
         func = plain if "plainfunc" in sub else w._make_func(tag, "plain", [])
         pulled0 = w.pulled[tag]
         kw = {}
+        if "named" in sub and "dupname" not in sub:
+            kw["group_name"] = "rejname"
         if "dupname" in sub:
             kw["group_name"] = [r.group for t, r in w.reqs.items() if r.p == p and t not in w.group_cancelled][0]
         nc = 0 if "nc0" in sub else (-1 if "ncneg" in sub else 1)
